@@ -155,6 +155,8 @@ impl Context for CommonContext {
             .borrow()
             .keys()
             .any(|define| define.eq_ignore_ascii_case(name))
+            // the location counter exists in pass 2 only, its name is taken from the start
+            || name.eq_ignore_ascii_case("pc")
             || self.get_expr(name).is_some()
             || self.get_def(name).is_some()
     }
